@@ -4,130 +4,10 @@ package domain
 
 import (
 	"context"
-	"os"
 
 	xfs "github.com/synnaxlabs/x/io/fs"
 	"github.com/synnaxlabs/x/telem"
 )
-
-//verif:assume process-crash model: every completed file-system call survives, the crashing call is either not applied or, for Write/WriteAt, applied to an arbitrary prefix of its bytes; nothing is reordered (cesium never fsyncs, and the property's quantifier is over prefixes of the mutation sequence)
-
-// verifCrash is the panic that models the death of the process.
-type verifCrash struct{}
-
-// verifCrashState counts the mutating calls that cross the FS/File interfaces and kills the process at one.
-type verifCrashState struct {
-	budget  int // the mutation with this index crashes; < 0: never
-	count   int
-	crashed bool
-	site    int // kind of the crashing call (verifSite*)
-	onIndex bool
-}
-
-const (
-	verifSiteNone = iota
-	verifSiteCreate
-	verifSiteWrite
-	verifSiteWriteAt
-	verifSiteTruncate
-	verifSiteRename
-	verifSiteRemove
-)
-
-// hit reports whether the mutation about to happen is the one that crashes.
-func (s *verifCrashState) hit(site int, name string) bool {
-	if s.budget >= 0 && s.count == s.budget {
-		s.crashed, s.site, s.onIndex = true, site, name == "index.domain"
-		return true
-	}
-	s.count++
-	return false
-}
-
-type verifCrashFS struct {
-	xfs.FS
-	st *verifCrashState
-}
-
-type verifCrashFile struct {
-	xfs.File
-	name string
-	st   *verifCrashState
-}
-
-func (f *verifCrashFS) Open(name string, flag int) (xfs.File, error) {
-	if flag&os.O_CREATE != 0 {
-		if ex, _ := f.FS.Exists(name); !ex {
-			if f.st.hit(verifSiteCreate, name) {
-				panic(verifCrash{})
-			}
-		}
-	}
-	file, err := f.FS.Open(name, flag)
-	if err != nil {
-		return nil, err
-	}
-	return &verifCrashFile{File: file, name: name, st: f.st}, nil
-}
-
-func (f *verifCrashFS) Sub(name string) (xfs.FS, error) {
-	sub, err := f.FS.Sub(name)
-	if err != nil {
-		return nil, err
-	}
-	return &verifCrashFS{FS: sub, st: f.st}, nil
-}
-
-func (f *verifCrashFS) Remove(name string) error {
-	if f.st.hit(verifSiteRemove, name) {
-		panic(verifCrash{})
-	}
-	return f.FS.Remove(name)
-}
-
-func (f *verifCrashFS) Rename(oldName, newName string) error {
-	if f.st.hit(verifSiteRename, oldName) {
-		panic(verifCrash{})
-	}
-	return f.FS.Rename(oldName, newName)
-}
-
-func (f *verifCrashFile) Write(p []byte) (int, error) {
-	if f.st.hit(verifSiteWrite, f.name) {
-		torn := verifLen("torn", 0, len(p))
-		_, _ = f.File.Write(p[:torn])
-		panic(verifCrash{})
-	}
-	return f.File.Write(p)
-}
-
-func (f *verifCrashFile) WriteAt(p []byte, off int64) (int, error) {
-	if f.st.hit(verifSiteWriteAt, f.name) {
-		torn := verifLen("torn", 0, len(p))
-		_, _ = f.File.WriteAt(p[:torn], off)
-		panic(verifCrash{})
-	}
-	return f.File.WriteAt(p, off)
-}
-
-func (f *verifCrashFile) Truncate(n int64) error {
-	if f.st.hit(verifSiteTruncate, f.name) {
-		panic(verifCrash{})
-	}
-	return f.File.Truncate(n)
-}
-
-// verifCrashRun runs the script; it returns normally also when the script "died".
-func verifCrashRun(script func()) {
-	defer func() {
-		if r := recover(); r != nil {
-			if _, ok := r.(verifCrash); !ok {
-				panic(r)
-			}
-		}
-	}()
-	script()
-}
 
 // VerifC02CrashScript: a script of writer commits, a delete and a garbage collection runs on a real DB whose
 // file system kills the process at an arbitrary mutating call (with an arbitrary torn prefix for writes); the
@@ -136,8 +16,8 @@ func verifCrashRun(script func()) {
 // operation — that state or the operation's result.
 func VerifC02CrashScript() {
 	mem := xfs.NewMem()
-	st := &verifCrashState{budget: verifLen("crash-at", 0, verifParam("mutations", 60))}
-	cfs := &verifCrashFS{FS: mem, st: st}
+	st := &xfs.VerifCrashState{Budget: verifLen("crash-at", 0, verifParam("mutations", 60))}
+	cfs := &xfs.VerifCrashFS{FS: mem, St: st}
 	ctx := context.Background()
 	no := false
 	n1 := verifLen("n1", 1, 2)
@@ -184,7 +64,7 @@ func VerifC02CrashScript() {
 	changing := false // inside a state-changing operation
 	inGC := false
 
-	verifCrashRun(func() {
+	xfs.VerifCrashRun(func() {
 		db, err := Open(Config{FS: cfs, FileSize: 5, GCThreshold: 0.25})
 		if err != nil {
 			panic(err)
@@ -239,9 +119,9 @@ func VerifC02CrashScript() {
 		}
 	})
 	verifObserve("done", int64(done))
-	verifObserveBool("crashed", st.crashed)
-	verifObserve("site", int64(st.site))
-	if !st.crashed {
+	verifObserveBool("crashed", st.Crashed)
+	verifObserve("site", int64(st.Site))
+	if !st.Crashed {
 		verifReach("script-completed")
 		verifAssert("script-completes-without-crash", done == len(states)-1)
 	}
@@ -253,8 +133,8 @@ func VerifC02CrashScript() {
 	// offsets only after all files; a crash from the first rename up to the end of that index rewrite leaves a
 	// missing data file or stale offsets.
 	finding := "C02-index-rewrite-not-atomic"
-	pattern := st.crashed && st.onIndex && (st.site == verifSiteTruncate || st.site == verifSiteWriteAt)
-	if st.crashed && inGC && (st.site == verifSiteRename || st.site == verifSiteRemove || pattern) {
+	pattern := st.Crashed && st.OnIndex && (st.Site == xfs.VerifSiteTruncate || st.Site == xfs.VerifSiteWriteAt)
+	if st.Crashed && inGC && (st.Site == xfs.VerifSiteRename || st.Site == xfs.VerifSiteRemove || pattern) {
 		finding, pattern = "C02-gc-swap-not-crash-safe", true
 	}
 	assertK := func(label string, cond bool) { verifAssertKnown(label, cond, finding, pattern) }
